@@ -206,6 +206,8 @@ func (c *evalCtx) ev1(t *Term) uint64 {
 			return 0
 		}
 		return uint64(int64(f))
+	case "fp.round32":
+		return u64(float64(float32(f64(c.ev(a[0])))))
 	case "to_fp":
 		return u64(float64(sext(c.ev(a[0]), w)))
 	case "to_fp_unsigned":
